@@ -705,6 +705,64 @@ pub fn check_clash_labels(files: &[(String, String)], name: &str) -> Result<bool
     Ok(judged)
 }
 
+/// the position `ironplcc check` prints for a duplicated-name diagnostic (`file:L:C`) and the one
+/// the language server publishes are file and start of the PRIMARY label, also when another label
+/// of the same diagnostic stands earlier in the same file
+pub fn check_clash_shown(files: &[(String, String)]) -> Result<bool, (String, String)> {
+    use crate::drive::*;
+    let mut libs = vec![];
+    for (f, text) in files {
+        match crate::panicx::catch(|| parse_program(text, &FileId::from_string(f), &ParseOptions::default())) {
+            Ok(Ok(l)) => libs.push(l),
+            _ => return Ok(false),
+        }
+    }
+    let refs: Vec<&ironplc_dsl::common::Library> = libs.iter().collect();
+    let ds = match crate::panicx::catch(|| analyze(&refs)) {
+        Ok(Err(ds)) => ds,
+        _ => return Ok(false),
+    };
+    let d = match ds.iter().find(|d| d.code == "P0019" || d.code == "P0020") {
+        Some(d) if ds.len() == 1 => d,
+        _ => return Ok(false),
+    };
+    let pfile = d.primary.file_id.to_string();
+    let ptext = match files.iter().find(|(f, _)| *f == pfile) {
+        Some((_, t)) => t,
+        None => return Ok(false), // reported by check_clash_labels
+    };
+    let (line, _, col_chars, col_utf16) = PosIndex::new(ptext).pos(d.primary.location.start.min(ptext.len()));
+    let dir = Scratch::new("c05g");
+    let mut paths = vec![];
+    for (f, text) in files {
+        paths.push(dir.write(f, text.as_bytes()).to_string_lossy().to_string());
+    }
+    let mut args = vec!["check".to_string()];
+    args.extend(paths.iter().cloned());
+    let out = run_cli(&args, None);
+    if !out.timed_out {
+        let shown: Vec<(String, usize, usize)> = parse_cli_diags(&out.stderr).into_iter().filter(|x| x.code == d.code && x.file.is_some()).map(|x| (x.file.clone().unwrap_or_default(), x.line, x.col)).collect();
+        // (which of two equal declarations in two files is "the duplicate" follows the project's file order, not the argument order: judged only when the file agrees)
+        let same_file: Vec<&(String, usize, usize)> = shown.iter().filter(|(f, _, _)| f.ends_with(&pfile)).collect();
+        if !shown.is_empty() && (files.len() == 1 || !same_file.is_empty()) && !same_file.iter().any(|(_, l, c)| (*l, *c) == (line + 1, col_chars + 1)) {
+            return Err(("clash-cli-position".into(), format!("{}: the primary label starts at {}:{}:{} (1-based), `ironplcc check` shows {:?}", d.code, pfile, line + 1, col_chars + 1, shown)));
+        }
+    }
+    if files.len() == 1 {
+        let uri = format!("file://{}", paths[0]);
+        let run = lsp_run(&[lsp_initialize(0), lsp_initialized(), lsp_did_open(&uri, 1, &files[0].1), lsp_shutdown(1), lsp_exit()]);
+        if !run.timed_out {
+            for f in run.frames.iter().filter(|f| f["method"] == "textDocument/publishDiagnostics") {
+                let shown: Vec<(u64, u64)> = f["params"]["diagnostics"].as_array().cloned().unwrap_or_default().iter().filter(|x| x["code"] == d.code.as_str()).map(|x| (x["range"]["start"]["line"].as_u64().unwrap_or(u64::MAX), x["range"]["start"]["character"].as_u64().unwrap_or(u64::MAX))).collect();
+                if !shown.is_empty() && !shown.contains(&(line as u64, col_utf16 as u64)) && !shown.contains(&(line as u64, col_chars as u64)) {
+                    return Err(("clash-lsp-position".into(), format!("{}: the primary label starts at line {} character {} (0-based), publishDiagnostics shows {:?}", d.code, line, col_chars, shown)));
+                }
+            }
+        }
+    }
+    Ok(true)
+}
+
 fn clash_forms(name: &str, tag: &str) -> Vec<(&'static str, String)> {
     vec![
         ("enum", format!("TYPE\n{} : (v1_{t}, v2_{t});\nEND_TYPE\n", name, t = tag)),
@@ -737,6 +795,13 @@ fn clash_grid(rep: &mut Report) {
                     let r = check_clash_labels(&files, n1);
                     o.stats.case(true, hash_str(&key));
                     o.stats.class(&format!("g.clash.{}", if two_files { "two-files" } else { "one-file" }));
+                    if ni == 1 && matches!(r, Ok(true)) {
+                        match check_clash_shown(&files) {
+                            Ok(true) => o.stats.class("g.clash.shown-positions(cli+lsp)"),
+                            Ok(false) => o.stats.class("g.clash.shown-positions.not-judged"),
+                            Err((k, d)) => o.failures.push((Failure::new("clash-shown", &k, d, json!({"files": files, "name": n1})), vec![])),
+                        }
+                    }
                     match r {
                         Ok(true) => o.stats.class(&format!("g.clash.judged.{}+{}", ka, kb)),
                         Ok(false) => o.stats.class("g.clash.not-judged(no P0019/P0020)"),
@@ -905,6 +970,10 @@ pub fn replay(ctx: &Ctx, v: &Value) -> i32 {
         "tokens-tile" => check_tiling(text).map_err(|(k, d)| format!("{}: {}", k, d)),
         "witness" => witness(&v["inputs"], &Gates::all_on()),
         "shown-error-position" => check_shown_error_position(text).map(|_| ()).map_err(|(k, d)| format!("{}: {}", k, d)),
+        "clash-shown" => {
+            let files: Vec<(String, String)> = v["inputs"]["files"].as_array().cloned().unwrap_or_default().iter().map(|p| (p[0].as_str().unwrap_or("").to_string(), p[1].as_str().unwrap_or("").to_string())).collect();
+            check_clash_shown(&files).map(|_| ()).map_err(|(k, d)| format!("{}: {}", k, d))
+        }
         "clash-labels" => {
             let files: Vec<(String, String)> = v["inputs"]["files"].as_array().cloned().unwrap_or_default().iter().map(|p| (p[0].as_str().unwrap_or("").to_string(), p[1].as_str().unwrap_or("").to_string())).collect();
             check_clash_labels(&files, v["inputs"]["name"].as_str().unwrap_or("")).map(|_| ()).map_err(|(k, d)| format!("{}: {}", k, d))
